@@ -119,6 +119,7 @@ static std::string run_trace(unsigned f, const std::vector<Op>& ops, int sink, R
 }
 
 static void check_trace(unsigned f, const std::vector<Op>& ops, int sink, Result& r) {
+    set_note("sink=" + std::to_string(sink) + ";" + ops_str(f, ops));   // a crash (sanitizer report) is attributed to this trace and replays from it
     std::string key; std::string why = run_trace(f, ops, sink, r, key);
     r.count("traces");
     if (!why.empty()) r.violation("enc|" + key, why, "sink=" + std::to_string(sink) + ";" + ops_str(f, ops));
@@ -167,7 +168,9 @@ int main(int argc, char** argv) {
     if (!a.replay.empty()) {
         unsigned f; std::vector<Op> ops; int sink;
         if (!parse_replay(slurp(a.replay), f, ops, sink)) { fprintf(stderr, "bad replay file\n"); rm_rf(g_dir); return 2; }
-        check_trace(f, ops, sink, total); a.finish(total); rm_rf(g_dir); return total.viol.empty() ? 0 : 1;
+        std::string rs = slurp(a.replay); Pool rp(1, 60);
+        rp.run(1, [&](uint64_t, Result& r) { check_trace(f, ops, sink, r); }, [&](uint64_t, const std::string& d, Result& r) { r.violation("enc|" + crash_key(d), d.substr(0, 1500), rs); }, total);
+        a.finish(total); rm_rf(g_dir); return total.viol.empty() ? 0 : 1;
     }
     bool T = a.thorough();
     // task list; each task is one (stage, fill level)
@@ -197,7 +200,7 @@ int main(int argc, char** argv) {
         case 6: { auto al = alphabet(t.f, true); for (int sink : {FD, NAMED, GZMEM}) for (auto& o : al) check_trace(t.f, {o, {U8, 42}}, sink, r); break; }
         }
     }, [&](uint64_t i, const std::string& d, Result& r) {
-        r.violation("enc|" + crash_key(d), "worker crashed in stage " + std::to_string(tasks[i].stage) + " f=" + std::to_string(tasks[i].f) + ": " + d.substr(0, 1500), "stage=" + std::to_string(tasks[i].stage) + ";f=" + std::to_string(tasks[i].f));
+        r.violation("enc|" + crash_key(d), "worker crashed in stage " + std::to_string(tasks[i].stage) + " f=" + std::to_string(tasks[i].f) + ": " + d.substr(0, 1500), pool.last_note.empty() ? "stage=" + std::to_string(tasks[i].stage) + ";f=" + std::to_string(tasks[i].f) : pool.last_note);
     }, total);
     total.n["evaluations"] = total.n["traces"];
     total.n["nontrivial"] = total.n["traces"];  // every trace compares >= 1 real encoder call with the reference
